@@ -342,10 +342,11 @@ def draw_line(rng, table):
             ["doublestarmap", "ctrlrun.work", rng.choice(bad_lit)],
             ["map", rng.choice(bad_path), "[1,2]"],
             ["apply", "ctrlrun.work", "--end-callback", rng.choice(bad_path)],
-            ["cancel", rng.choice(["x", "1.0", "[1]", ""])],
-            ["pool-size", rng.choice(["x", "1.5", "", "None", "inf", "1e999", "0x10", "+inf", "nan", "Infinity"])],
-            ["stop", rng.choice(["x", "2.5", ""])],
-            ["start", rng.choice(["x", "1e3", "", "inf", "0b1"])],
+            ["cancel", rng.choice(["x", "1.0", "[1]", "", "==SUPPRESS=="])],
+            ["pool-size", rng.choice(["x", "1.5", "", "None", "inf", "1e999", "0x10", "+inf", "nan", "Infinity",
+                                      "==SUPPRESS==", "==PARSER=="])],
+            ["stop", rng.choice(["x", "2.5", "", "==SUPPRESS=="])],
+            ["start", rng.choice(["x", "1e3", "", "inf", "0b1", "==SUPPRESS==", "A...", "..."])],
         ])
         return " ".join(shape)
     if x < 0.66:     # help requests
